@@ -4,6 +4,7 @@ import (
 	"fmt"
 	"reflect"
 	"strings"
+	"time"
 
 	"codeberg.org/TauCeti/mangle-go/ast"
 	"codeberg.org/TauCeti/mangle-go/functional"
@@ -122,6 +123,11 @@ func roundTripClause(id any, source string) ClauseRT {
 func cmdClauses(args []string) error {
 	f := parseFlags(args)
 	first := true
+	if off := f.int("tz", 0); off != 0 {
+		// the round trip must hold under every configured default timezone (ast.SetTimezone is process-wide)
+		ast.SetDefaultTimezone(time.FixedZone("verif", off))
+		defer ast.SetDefaultTimezone(time.UTC)
+	}
 	return parallelMapMulti(f.str("in", "-"), f.str("out", "-"), 1, func(line []byte) ([]any, error) {
 		var out []any
 		if first {
@@ -148,11 +154,11 @@ func cmdClauses(args []string) error {
 				}
 				return o
 			}
-			for _, l := range strings.Split(tprogramText(c, ident(len(c.Rules)), ident(len(c.TFacts))), "\n") {
+			for k, l := range strings.Split(tprogramText(c, ident(len(c.Rules)), ident(len(c.TFacts))), "\n") {
 				if l == "" || strings.HasPrefix(l, "Decl") {
 					continue
 				}
-				out = append(out, roundTripClause(c.ID, l))
+				out = append(out, roundTripClause(fmt.Sprintf("%v#%d", c.ID, k), l)) // one id per clause
 			}
 			return out, nil
 		}
@@ -161,10 +167,10 @@ func cmdClauses(args []string) error {
 			return nil, err
 		}
 		for _, r := range c.Rules {
-			out = append(out, roundTripClause(c.ID, mgjson.ClauseText(r)))
+			out = append(out, roundTripClause(fmt.Sprintf("%v#r%d", c.ID, len(out)), mgjson.ClauseText(r)))
 		}
 		for _, fct := range c.Edb {
-			out = append(out, roundTripClause(c.ID, mgjson.AtomText(fct)+"."))
+			out = append(out, roundTripClause(fmt.Sprintf("%v#f%d", c.ID, len(out)), mgjson.AtomText(fct)+"."))
 		}
 		return out, nil
 	})
